@@ -58,7 +58,15 @@ func runOne(sp solverSpec, dir, base, query string, timeout time.Duration) Attem
 	cmd := exec.CommandContext(ctx, argv[0], argv[1:]...)
 	out, err := cmd.CombinedOutput()
 	secs := time.Since(start).Seconds()
-	first := strings.TrimSpace(strings.SplitN(string(out), "\n", 2)[0])
+	first := ""
+	for _, l := range strings.Split(string(out), "\n") {
+		l = strings.TrimSpace(l)
+		if l == "" || strings.HasPrefix(l, "WARNING") || strings.HasPrefix(l, "(warning") {
+			continue
+		}
+		first = l
+		break
+	}
 	verdict := first
 	switch {
 	case first == "unsat" || first == "sat" || first == "unknown":
